@@ -24,6 +24,10 @@ class Inconclusive(BaseException):
 
 ENGINE = None  # the engine of the path currently executing (one per process)
 
+import os as _os
+CVC5_RATE = float(_os.environ.get("VERIF_CVC5_RATE", "0") or 0)      # fraction of assertion queries re-run with cvc5
+CVC5_SEED = int(_os.environ.get("VERIF_SEED", "0") or 0)
+
 OUT_PREFIX = "o."  # names of solver-output symbols start with this (zero tests on them are not forked)
 
 
@@ -526,9 +530,49 @@ class Engine:
         r, s = self._check(self.hyps(pools) + list(extra) + [z3.Not(c)], timeout_ms or self.assert_timeout_ms)
         rs = str(r)
         self.stats[rs] += 1
+        if CVC5_RATE > 0 and rs in ('unsat', 'sat'):
+            self._crosscheck(s, rs)
         if len(self.sample_queries) < 3:
             self.sample_queries.append(dict(claim=str(z3.simplify(c))[:300], pools=list(pools), verdict=rs))
         return rs, (s.model() if r == z3.sat else None)
+
+    def _crosscheck(self, solver, verdict):
+        """second solver on a sample of the discharged queries (thorough tier): cvc5 on the SMT-LIB export of the very
+        assertions z3 decided.  A definite opposite verdict is recorded as a disagreement (=> INCONCLUSIVE)."""
+        import hashlib
+        n = self.stats['assert_queries']
+        h = int(hashlib.sha1(("%d:%d" % (CVC5_SEED, n)).encode()).hexdigest()[:8], 16) / 0xffffffff
+        if h > CVC5_RATE:
+            return
+        try:
+            import cvc5
+            txt = solver.to_smt2()
+            if 'String' in txt or 'str.' in txt:
+                return
+            tm = cvc5.TermManager()
+            slv = cvc5.Solver(tm)
+            slv.setOption("tlimit-per", "10000")
+            slv.setLogic("ALL")
+            prs = cvc5.InputParser(slv)
+            prs.setStringInput(cvc5.InputLanguage.SMT_LIB_2_6, txt, "q")
+            sm = prs.getSymbolManager()
+            res = None
+            while True:
+                cmd = prs.nextCommand()
+                if cmd.isNull():
+                    break
+                out = cmd.invoke(slv, sm).strip()
+                if out:
+                    res = out
+            self.stats['cvc5_checked'] = self.stats.get('cvc5_checked', 0) + 1
+            if res == verdict:
+                self.stats['cvc5_agree'] = self.stats.get('cvc5_agree', 0) + 1
+            elif res in ('sat', 'unsat'):
+                self.stats['cvc5_disagree'] = self.stats.get('cvc5_disagree', 0) + 1
+            else:
+                self.stats['cvc5_unknown'] = self.stats.get('cvc5_unknown', 0) + 1
+        except Exception:
+            self.stats['cvc5_error'] = self.stats.get('cvc5_error', 0) + 1
 
     def satisfiable(self, pools=(), extra=(), timeout_ms=None):
         """Reachability twin: hypotheses of this path are jointly satisfiable."""
